@@ -20,6 +20,7 @@ type Env struct {
 	bound     map[string]Val
 	preNames  map[string]Val
 	preState  *State
+	freeCells map[string]Val // captured variables of a closure whose contract is being applied: name -> cell
 	goal      bool // evaluating a proof goal (witness hints may be used in positive positions)
 	neg       bool
 }
@@ -86,6 +87,16 @@ func (env *Env) lookup(name string) (Val, bool) {
 	}
 	if v, ok := env.names[name]; ok {
 		return v, true
+	}
+	if c, ok := env.freeCells[name]; ok {
+		if c.Addr != nil {
+			return Val{T: fx.load(env.fr, env.st, c.Addr, 0), Typ: c.Addr.FTyp}, true
+		}
+		if pt, isPtr := c.Typ.Underlying().(*types.Pointer); isPtr {
+			a := fx.addrOfTerm(c.T, pt.Elem())
+			return Val{T: fx.load(env.fr, env.st, a, 0), Typ: pt.Elem()}, true
+		}
+		return c, true
 	}
 	fr := env.fr
 	if !env.onlyNames && fr != nil {
